@@ -61,8 +61,12 @@ class G36:
                 test = r.choice(["x", "x and f()", "x and af()", "x is odd", "f() and x"])
                 ext = r.choice(["", "{{ loop.index }}", "{{ loop.length }}"])
                 out += "{% for x in xs if " + test + " %}" + ext + self.body(d - 1) + "{% endfor %}"
-            elif k < 0.56:
+            elif k < 0.53:
                 out += "{% for x in xs %}" + self.body(d - 1) + "{% endfor %}"
+            elif k < 0.56:
+                # other iterable kinds: an async iterable object, a tuple; with and without a loop filter
+                out += "{% for x in " + r.choice(["axs", "txs"]) + r.choice(["", " if x", " if x and af()"]) + " %}" \
+                    + r.choice(["", "{{ loop.last }}"]) + self.body(d - 1) + "{% endfor %}"
             elif k < 0.62 and self.filter_gens:
                 flt = r.choice(["select('odd')", "reject('odd')", "map('string')", "select", "map('abs')|select('odd')"])
                 ext = r.choice(["", "{{ loop.index }}"])
@@ -74,7 +78,8 @@ class G36:
                 self.n += 1
                 name = f"inc{self.n}.html"
                 self.aux[name] = self.body(d - 1)
-                out += "{% include '" + name + "' %}"
+                out += r.choice(["{% include '" + name + "' %}", "{% include '" + name + "' %}", "{% include '" + name + "' without context %}",
+                                 "{% include ['nope.html', '" + name + "'] ignore missing %}", "{% include 'nope.html' ignore missing %}"])
             elif k < 0.86:
                 self.n += 1
                 m = f"m{self.n}"
@@ -84,7 +89,7 @@ class G36:
                 self.n += 1
                 name = f"lib{self.n}.html"
                 self.aux[name] = "{% macro lm() %}" + self.body(d - 1) + "{% endmacro %}"
-                out += "{% import '" + name + "' as L" + str(self.n) + " %}{{ L" + str(self.n) + ".lm() }}"
+                out += "{% import '" + name + "' as L" + str(self.n) + r.choice(["", " with context"]) + " %}{{ L" + str(self.n) + ".lm() }}"
             else:
                 out += "{% if f() %}" + self.body(d - 1) + "{% endif %}"
         return out
@@ -126,7 +131,8 @@ class G36:
                 main = "{% if xs[1] %}{% extends '" + parent + "' %}{% endif %}" + self.atom()
             for i in range(nb):
                 if r.random() < 0.8:
-                    main += "{% block b" + str(i) + " %}" + self.body(2) + r.choice(["", "{{ super() }}"]) + "{% endblock %}"
+                    sup = r.choice(["", "{{ super() }}"]) if form != "cond_false" else ""      # no parent, no super()
+                    main += "{% block b" + str(i) + " %}" + self.body(2) + sup + "{% endblock %}"
         else:
             main = self.body(3, top=True)
             if r.random() < 0.4:
@@ -189,11 +195,27 @@ class World:
                 self.v = v
                 self.c = list(c)
 
-        return {"f": f, "af": af, "xs": [1, 0, 2, 3], "tree": [Node("p", [Node("q"), Node("")]), Node("r")]}
+        class AIt:
+            def __init__(self, items):
+                self.items = list(items)
+
+            def __aiter__(self):
+                self.i = 0
+                return self
+
+            async def __anext__(self):
+                if self.i >= len(self.items):
+                    raise StopAsyncIteration
+                self.i += 1
+                return self.items[self.i - 1]
+
+        return {"f": f, "af": af, "axs": AIt([1, 0, 2]), "txs": (2, 0, 1), "xs": [1, 0, 2, 3], "tree": [Node("p", [Node("q"), Node("")]), Node("r")]}
 
 
 _RT_SITES = {}
 _ENVS = {}
+_CURRENT = {}
+ENV_KIND = ["e"]       # e: Environment, s: SandboxedEnvironment, n: NativeEnvironment
 
 
 class Tracker:
@@ -207,7 +229,7 @@ class Tracker:
         self.entries = []
         self.finalized = 0
         self.other = 0
-        for fn in ("environment.py", "runtime.py"):
+        for fn in ("environment.py", "runtime.py", "nativetypes.py"):
             path = os.path.join(self.src_dir, fn)
             if path not in _RT_SITES:
                 _RT_SITES[path] = TS.scan(open(path).read(), fn)
@@ -313,13 +335,23 @@ def run_op(jinja2, loop, templates, src_dir, op, k, entry):
     key = id(templates)
     if key not in _ENVS:
         _ENVS.clear()
-        env = jinja2.Environment(loader=jinja2.FunctionLoader(lambda n: (templates[n], n, lambda: True) if n in templates else None), enable_async=True)
+        from jinja2.nativetypes import NativeEnvironment
+        from jinja2.sandbox import SandboxedEnvironment
+        ecls = {"s": SandboxedEnvironment, "n": NativeEnvironment}.get(ENV_KIND[0], jinja2.Environment)
+        env = ecls(loader=jinja2.FunctionLoader(lambda n: (templates[n], n, lambda: True) if n in templates else None), enable_async=True)
         _ENVS[key] = (env, Tracker(env, templates, src_dir), templates)
     env, tr0, _keepalive = _ENVS[key]
     tr = Tracker(env, templates, src_dir)
     tr.sites = tr0.sites          # generated-code sites are computed once per template set
     w = World(tr, raise_at=k if op == "raise" else None, cancel_at=k if op == "cancel" else None)
     data = w.data()
+    # the data callables are also environment globals (templates imported / included without context call them):
+    # stable wrappers that delegate to this run's callables
+    _CURRENT.update(f=data["f"], af=data["af"])
+    if "f" not in env.globals:
+        async def g_af():
+            return await _CURRENT["af"]()
+        env.globals.update(f=lambda: _CURRENT["f"](), af=g_af, xs=data["xs"])
     state = {"chunks": 0}
 
     async def main():
@@ -378,7 +410,7 @@ OBLIGATION = '''
    templates and in environment.py / runtime.py is guarded or an async comprehension *)
 Lemma sites_guarded : sites_ok sites = true.
 Proof. vm_compute. reflexivity. Qed.
-Lemma runtime_sites_guarded : sites_ok runtime_sites = true /\\ Nat.leb 4 (length runtime_sites) = true.
+Lemma runtime_sites_guarded : sites_ok runtime_sites = true /\\ Nat.leb 5 (length runtime_sites) = true.
 Proof. vm_compute. split; reflexivity. Qed.
 '''
 
@@ -398,10 +430,12 @@ def run(ctx):
     loop = asyncio.new_event_loop()
     all_sites = {}
     pending = []
-    n_sets = ctx.size(220, 1000)
+    n_sets = ctx.size(130, 800)
     try:
         for ti in range(n_sets):
             ts = FIXED[ti] if ti < len(FIXED) else G36(ctx.rng, filter_gens=(ti % 4 == 3)).template_set()
+            ENV_KIND[0] = "esenee"[ti % 6]
+            ctx.count("env_" + ENV_KIND[0])
             clean = run_op(jinja2, loop, ts, src_dir, "complete", 0, "generate_async")
             for s in clean["sites"]:
                 all_sites[(ts["main.html"], s["file"], s["line"], s["text"])] = s
@@ -422,7 +456,7 @@ def run(ctx):
 
     # ---------------- regenerated obligation over the sites of every generated template of this run
     rt = []
-    for fn in ("environment.py", "runtime.py"):
+    for fn in ("environment.py", "runtime.py", "nativetypes.py"):
         rt += TS.scan(open(os.path.join(src_dir, fn)).read(), fn)
     v = ("From Coq Require Import List Bool Arith.\nImport ListNotations.\nFrom JV Require Import Model.Gens.\n"
          + TS.coq_sites(list(all_sites.values()), "sites") + TS.coq_sites(rt, "runtime_sites") + OBLIGATION)
@@ -444,7 +478,7 @@ def run(ctx):
 
 
 def judge(ctx, ts, op, k, entry, r, pending):
-    case = {"templates": ts, "op": op, "k": k, "entry": entry}
+    case = {"templates": ts, "op": op, "k": k, "entry": entry, "env": ENV_KIND[0]}
     cfg = r["config"]
     fired = cfg is not None
     nontriv = fired and (len(cfg["names"]) >= 3 or any(n.endswith("/side") for n in cfg["names"]))
@@ -481,6 +515,7 @@ def replay(ctx, data):
         print("replay: names a broken theorem / obligation / correspondence:", data.get("broken"))
         return run(ctx)
     loop = asyncio.new_event_loop()
+    ENV_KIND[0] = case.get("env", "e")
     r = run_op(jinja2, loop, case["templates"], os.path.join(lib.SRC, "jinja2"), case["op"], case["k"], case["entry"])
     loop.close()
     print("result:", r["res"], "opened:", r["opened"], "live at interruption:", r["config"]["names"] if r["config"] else None)
